@@ -86,8 +86,9 @@ impl ConnectionInfo {
     /// data from us.
     fn peer_free(&self) -> u32 {
         // `tx_cnt` and `peer_fwd_cnt` are free-running counters; their difference modulo 2^32 is the
-        // number of bytes in flight.
-        self.peer_buf_alloc - self.tx_cnt.wrapping_sub(self.peer_fwd_cnt)
+        // number of bytes in flight. The peer may have shrunk its buffer below that: no space then.
+        self.peer_buf_alloc
+            .saturating_sub(self.tx_cnt.wrapping_sub(self.peer_fwd_cnt))
     }
 
     fn new_header(&self, src_cid: u64) -> VirtioVsockHdr {
